@@ -454,7 +454,8 @@ def M4(ctx):
         if blk["cleanup"]:
             continue
         for s in blk["stmts"]:
-            if s["k"] == "=" and s["lhs"]["l"] == 1 and any(isinstance(p, dict) and p.get("a") == "rt::atomic::FirstSeen" for p in s["lhs"]["p"]):
+            # a store into the per-thread array, directly (`self.0[i] = v`) or through a reference to the slot (`*slot = v`)
+            if s["k"] == "=" and s["lhs"]["p"] and mentions_field(body.expr_of_place(s["lhs"]), "rt::atomic::FirstSeen", "0") is not None:
                 writes.append(b)
     ok = bool(writes)
     for b in writes:
@@ -589,6 +590,24 @@ def M6(ctx):
             w = sc_atom(e)
             if w is not None and val.get(w) is not None:
                 return switch_targets_for(t_, val[w] == pol)
+            vt = variant_test(e)
+            if vt and vt[1] == "SeqCst":
+                subj = vt[0]
+                w = which(subj) if any(x[0] == "field" and x[3] == "rt::atomic::Store" for x in subexprs(subj)) else "load"
+                if val.get(w) is not None:
+                    return switch_targets_for(t_, ((val[w] == vt[2]) == pol))
+            if e[0] == "discr" and e[2] == ORD_TY:
+                # `matches!(x, SeqCst)` written in place (the predicate is flattened): x is the load's ordering or a store's
+                subj = e[1]
+                w = which(subj) if any(x[0] == "field" and x[3] == "rt::atomic::Store" for x in subexprs(subj)) else "load"
+                if val.get(w) is not None:
+                    names = dict((n_, v_) for (v_, n_) in (e[3] or []))
+                    sc = names.get("SeqCst", 4)
+                    hit = [tb for (v_, tb) in t_["targets"] if v_ == sc]
+                    rest = [tb for (v_, tb) in t_["targets"] if v_ != sc] + [t_["otherwise"]]
+                    if val[w]:
+                        return set(hit) if hit else {t_["otherwise"]}
+                    return set(rest) - set(hit) if hit else set(rest)
             return None
         return assume_all(a, assume_scenario(prog, others if others is not None else
                                              {"rt::atomic::FirstSeen::is_seen_by_current": False,
